@@ -98,6 +98,10 @@ func (g *GlobalTransactionManager) Commit(ctx context.Context, gtr *GlobalTransa
 		bf.Wait()
 	}
 
+	if err == nil && res == nil && bf.Err() != nil {
+		// the context was done before the request could be sent at all
+		err = bf.Err()
+	}
 	if err != nil || bf.Err() != nil {
 		lastErr := errors.Wrap(err, bf.Err().Error())
 		log.Warnf("send global commit request failed, xid %s, error %v", gtr.Xid, lastErr)
@@ -140,6 +144,10 @@ func (g *GlobalTransactionManager) Rollback(ctx context.Context, gtr *GlobalTran
 		bf.Wait()
 	}
 
+	if err == nil && res == nil && bf.Err() != nil {
+		// the context was done before the request could be sent at all
+		err = bf.Err()
+	}
 	if err != nil && bf.Err() != nil {
 		lastErr := errors.Wrap(err, bf.Err().Error())
 		log.Errorf("GlobalRollbackRequest rollback failed, xid %s, error %v", gtr.Xid, lastErr)
